@@ -945,4 +945,521 @@ theorem getObj_spec (s : State) (c : Cls) (k : Id) (sel : Bool) (hi : CInv s) :
       rw [fr1.rows]; simpa using hk
 
 
+
+theorem selectLoop_spec (c : Cls) (ids : List Id) (s : State) (acc : List Handle) (hi : CInv s)
+    (ha : ∀ h ∈ acc, ∃ k, Good s c k h) :
+    CInv (selectLoop c ids s acc).1 ∧ Frame s (selectLoop c ids s acc).1 ∧
+    (selectLoop c ids s acc).1.pickles = s.pickles ∧
+    (∀ h ∈ (selectLoop c ids s acc).2, ∃ k, Good (selectLoop c ids s acc).1 c k h) := by
+  induction ids generalizing s acc with
+  | nil =>
+    simp only [selectLoop]
+    exact ⟨hi, Frame.refl s, trivial, fun h hh => ha h (List.mem_reverse.1 hh)⟩
+  | cons k ks ih =>
+    simp only [selectLoop]
+    split
+    · obtain ⟨g1, g2, g3, g4, _⟩ := getObj_spec s c k true hi
+      generalize getObj s c k true = r at g1 g2 g3 g4
+      obtain ⟨s1, res⟩ := r
+      cases res with
+      | some h =>
+        simp only at g1 g2 g3 g4 ⊢
+        have := ih s1 (h :: acc) g1 (by
+          intro h' hh'
+          simp only [List.mem_cons] at hh'
+          rcases hh' with rfl | hh'
+          · exact ⟨k, g4 _ rfl⟩
+          · obtain ⟨k', gk⟩ := ha h' hh'; exact ⟨k', gk.frame g2⟩)
+        exact ⟨this.1, g2.trans this.2.1, this.2.2.1.trans g3, this.2.2.2⟩
+      | none =>
+        simp only at g1 g2 g3 g4 ⊢
+        have := ih s1 acc g1 (by
+          intro h' hh'
+          obtain ⟨k', gk⟩ := ha h' hh'; exact ⟨k', gk.frame g2⟩)
+        exact ⟨this.1, g2.trans this.2.1, this.2.2.1.trans g3, this.2.2.2⟩
+    · exact ih s acc hi ha
+
+theorem joinLoop_spec (c : Cls) (ids : List Id) (s : State) (acc : List Handle) (hi : CInv s)
+    (ha : ∀ h ∈ acc, ∃ k, Good s c k h) :
+    CInv (joinLoop c ids s acc).1 ∧ Frame s (joinLoop c ids s acc).1 ∧
+    (joinLoop c ids s acc).1.pickles = s.pickles ∧
+    (∀ l, (joinLoop c ids s acc).2 = some l → ∀ h ∈ l, ∃ k, Good (joinLoop c ids s acc).1 c k h) := by
+  induction ids generalizing s acc with
+  | nil =>
+    simp only [joinLoop]
+    refine ⟨hi, Frame.refl s, trivial, ?_⟩
+    intro l hl h hh
+    simp only [Option.some.injEq] at hl; subst hl
+    exact ha h (List.mem_reverse.1 hh)
+  | cons k ks ih =>
+    simp only [joinLoop]
+    obtain ⟨g1, g2, g3, g4, _⟩ := getObj_spec s c k false hi
+    generalize getObj s c k false = r at g1 g2 g3 g4
+    obtain ⟨s1, res⟩ := r
+    cases res with
+    | some h =>
+      simp only at g1 g2 g3 g4 ⊢
+      have := ih s1 (h :: acc) g1 (by
+        intro h' hh'
+        simp only [List.mem_cons] at hh'
+        rcases hh' with rfl | hh'
+        · exact ⟨k, g4 _ rfl⟩
+        · obtain ⟨k', gk⟩ := ha h' hh'; exact ⟨k', gk.frame g2⟩)
+      exact ⟨this.1, g2.trans this.2.1, this.2.2.1.trans g3, this.2.2.2⟩
+    | none =>
+      simp only at g1 g2 g3 g4 ⊢
+      exact ⟨g1, g2, g3, by simp⟩
+
+theorem inv_gc (s : State) (hs : List Handle) (hi : CInv s) : CInv (gcStep s hs) := by
+  obtain ⟨h1, h2, h3, h4, h5, h6, h7, h8⟩ := hi
+  have hobj : ∀ h, ((gcStep s hs).obj h).cls = (s.obj h).cls ∧ ((gcStep s hs).obj h).id = (s.obj h).id ∧
+      ((gcStep s hs).obj h).held = (s.obj h).held ∧ ((gcStep s hs).obj h).obsolete = (s.obj h).obsolete := by
+    intro h; simp only [gcStep]; split <;> simp
+  constructor
+  · intro c e he
+    obtain ⟨a1, a2, a3, a4⟩ := hobj e.2
+    rw [a1, a2, a4]; exact h1 c e he
+  · exact h2
+  · exact h3
+  · exact h4
+  · intro c e he
+    simp only [gcStep]
+    split
+    · rename_i hk
+      simp only [killable, Bool.and_eq_true, Bool.not_eq_true', decide_eq_true_eq] at hk
+      have := (h1 c e (Or.inl he)).2.1
+      rw [this] at hk
+      have hh : ahas e.2 (s.fac c).strong = true := (ahas_iff _ _).2 ⟨e.1, he⟩
+      rw [hh] at hk; simp at hk
+    · exact h5 c e he
+  · exact h6
+  · intro h hn hx hh ho
+    obtain ⟨a1, a2, a3, a4⟩ := hobj h
+    rw [a3] at hh; rw [a4] at ho; rw [a1, a2]
+    exact h7 h hn hx hh ho
+  · intro h hn hh
+    obtain ⟨a1, a2, a3, a4⟩ := hobj h
+    rw [a3] at hh
+    simp only [gcStep]
+    split
+    · rename_i hk
+      simp only [killable, Bool.and_eq_true, Bool.not_eq_true', decide_eq_true_eq] at hk
+      rw [hh] at hk; simp at hk
+    · exact h8 h hn hh
+
+theorem inv_weakrefAll (s : State) (hi : CInv s) : CInv (weakrefAll s) := by
+  unfold weakrefAll
+  split
+  · obtain ⟨h1, h2, h3, h4, h5, h6, h7, h8⟩ := hi
+    constructor
+    · intro c e he
+      simp only [Ent] at he
+      rcases he with he | he
+      · cases he
+      · rcases mem_asetAll_sound _ _ _ he with a | a
+        · exact h1 c e (Or.inr a)
+        · exact h1 c e (Or.inl a)
+    · intro c; simp [Fun]
+    · intro c; exact fun_asetAll _ _ (h3 c)
+    · intro c k v1 v2 a; cases a
+    · intro c e a; cases a
+    · intro _ c; rfl
+    · intro h hn hx hh ho
+      have a := h7 h hn hx hh ho
+      right
+      simp only
+      rcases a with a | a
+      · exact mem_asetAll_new _ _ _ (h2 _) a
+      · exact mem_asetAll_old _ _ _ a (fun v hv => h4 _ _ v h hv a)
+    · exact h8
+  · exact hi
+
+
+
+/-- some instance the application holds is registered under `(c, k)` -/
+def heldAt (s : State) (c : Cls) (k : Id) : Bool :=
+  (match aget k (s.fac c).strong with | some h => (s.obj h).held | none => false) ||
+  (match aget k (s.fac c).weak with | some h => (s.obj h).held | none => false)
+
+/-- the histories the partial theorems are about: an op is *excluded* when it
+    (E1) detaches an instance the application holds: `obj.expire()` while a held instance is registered
+         for that row, `connection.expireAll()` while the application holds any live instance;
+    (E2) unpickles a row that does not exist (any more);
+    (E3) unpickles while a dead weak reference for that id still lingers in the expired cache;
+    (E4) calls `destroySelf()` on an instance that was already destroyed. -/
+def guard (s : State) : Op → Bool
+  | .expire h => !heldAt s (s.obj h).cls (s.obj h).id
+  | .expireAll => (List.range s.n).all (fun h => !(s.obj h).held || (s.obj h).obsolete)
+  | .destroy h => !(s.obj h).obsolete
+  | .unpickle p =>
+    match s.pickles[p]? with
+    | some (c, k, _) =>
+      (s.rows c).contains k &&
+      (!s.cfg.doCache || (match aget k (s.fac c).weak with | some h => !(s.obj h).dead | none => true))
+    | none => true
+  | _ => true
+
+def Safe (s : State) : List Op → Bool
+  | [] => true
+  | op :: ops => guard s op && Safe (step s op).1 ops
+
+def Out.handles : Out → List Handle
+  | .obj h => [h]
+  | .objs l => l
+  | _ => []
+
+def Op.isAccess : Op → Bool
+  | .get .. | .select .. | .look .. | .fk .. | .join .. => true
+  | _ => false
+
+theorem inv_expireOne_free (s : State) (h : Handle) (hi : CInv s)
+    (hf : ∀ h', h' < s.n → (s.obj h').held = true → (s.obj h').obsolete = true) :
+    CInv (expireOne s h) ∧ (expireOne s h).n = s.n ∧
+    (∀ h', h' < (expireOne s h).n → ((expireOne s h).obj h').held = true → ((expireOne s h).obj h').obsolete = true) := by
+  unfold expireOne
+  have a : CInv (setObj s h { s.obj h with expired := true }) :=
+    inv_setObj s h _ hi rfl rfl rfl rfl (fun x => Or.inl x)
+  have hf' : ∀ h', h' < s.n → ((setObj s h { s.obj h with expired := true }).obj h').held = true →
+      ((setObj s h { s.obj h with expired := true }).obj h').obsolete = true := by
+    intro h' hn hh
+    simp only [setObj, upd] at hh ⊢
+    split at hh <;> simp_all
+  refine ⟨?_, ?_, ?_⟩
+  · apply inv_purge _ _ _ a
+    intro h' hn hh ho
+    rw [hf' h' hn hh] at ho; cases ho
+  · rw [purge_eq]; rfl
+  · rw [purge_eq]; exact hf'
+
+theorem inv_expireFold (items : List Handle) (s : State) (hi : CInv s)
+    (hf : ∀ h', h' < s.n → (s.obj h').held = true → (s.obj h').obsolete = true) :
+    CInv (items.foldl expireOne s) := by
+  induction items generalizing s with
+  | nil => exact hi
+  | cons x xs ih =>
+    simp only [List.foldl_cons]
+    obtain ⟨a, b, c⟩ := inv_expireOne_free s x hi hf
+    exact ih _ a c
+
+
+
+theorem tick_dead (s : State) (c : Cls) (h : Handle) (hd : ((tick s c).obj h).dead = true) :
+    (s.obj h).dead = true ∨ ∃ c' k, Ent s c' (k, h) := by
+  rcases tick_cases s c with e | e | e <;> rw [e] at hd
+  · exact Or.inl hd
+  · exact Or.inl hd
+  · obtain ⟨_, _, _, _, _, o6, _⟩ := cull_obj (setFac s c { s.fac c with cullCount := 0, cullOffset := (s.fac c).cullOffset }) c h
+    rcases o6 hd with a | ⟨_, _, k, hk, _⟩
+    · exact Or.inl a
+    · right; refine ⟨c, k, Or.inl ?_⟩
+      simpa [setFac, upd] using hk
+
+/-- `created` for a freshly built instance (after INSERT, or in `__setstate__`) -/
+theorem inv_register (s : State) (c : Cls) (k : Id) (ex : Bool) (hi : CInv s) (hr : k ∈ s.rows c)
+    (hs : ∀ v, (k, v) ∉ (s.fac c).strong)
+    (hw : ∀ v, (k, v) ∈ (s.fac c).weak → s.cfg.doCache = false ∧ (s.obj v).dead = true) :
+    CInv (insertEntry (tick (alloc s c k ex) c) c k s.n) ∧
+    Good (insertEntry (tick (alloc s c k ex) c) c k s.n) c k s.n := by
+  have ha := inv_alloc s c k ex hi
+  have ht := inv_tick _ c ha
+  obtain ⟨t1, t2, t3, t4, t5, t6, t7⟩ := tick_facts (alloc s c k ex) c
+  obtain ⟨a1, a2, a3, a4, a5, a6⟩ := t7 s.n
+  have hdead : ((tick (alloc s c k ex) c).obj s.n).dead = false := by
+    cases hd : ((tick (alloc s c k ex) c).obj s.n).dead with
+    | false => rfl
+    | true =>
+      rcases tick_dead _ c s.n hd with x | ⟨c', k', x⟩
+      · simp [alloc, upd] at x
+      · have := (ha.ent c' (k', s.n) x).2.2.2.2.2
+        simp at this
+  have hn : s.n < (tick (alloc s c k ex) c).n := by rw [t1]; simp [alloc]
+  have oc : ((tick (alloc s c k ex) c).obj s.n).cls = c := by rw [a1]; simp [alloc, upd]
+  have ok : ((tick (alloc s c k ex) c).obj s.n).id = k := by rw [a2]; simp [alloc, upd]
+  have oo : ((tick (alloc s c k ex) c).obj s.n).obsolete = false := by rw [a4]; simp [alloc, upd]
+  have oh : ((tick (alloc s c k ex) c).obj s.n).held = true := by rw [a3]; simp [alloc, upd]
+  have hr' : k ∈ (tick (alloc s c k ex) c).rows c := by rw [t2]; exact hr
+  refine ⟨inv_insert_new _ c k s.n ht hn oc ok hdead oo hr' ?_ ?_, ?_⟩
+  · intro v hv
+    rcases t6 c (k, v) (Or.inl hv) with x | x
+    · exact hs v x
+    · have := (hw v x).1
+      have h0 := ht.nocache (by rw [t3]; exact this) c
+      rw [h0] at hv; cases hv
+  · intro v hv
+    rw [t3]
+    rcases t6 c (k, v) (Or.inr hv) with x | x
+    · exact absurd x (hs v)
+    · obtain ⟨x1, x2⟩ := hw v x
+      refine ⟨x1, ?_⟩
+      have hne : v ≠ s.n := Nat.ne_of_lt (hi.ent c (k, v) (Or.inr x)).1
+      have := (t7 v).2.2.2.2.2
+      apply this
+      simpa [alloc, upd, hne] using x2
+  · obtain ⟨i1, i2, i3, i4, i5, i6⟩ := insertEntry_fields (tick (alloc s c k ex) c) c k s.n
+    simp only [Good]
+    rw [i1, i3, i4]
+    exact ⟨hn, oc, ok, oh, oo, hr'⟩
+
+theorem inv_rows_add (s : State) (c : Cls) (k : Id) (m : Cls → Nat) (hi : CInv s) :
+    CInv { s with rows := upd s.rows c (s.rows c ++ [k]), maxId := m } := by
+  obtain ⟨h1, h2, h3, h4, h5, h6, h7, h8⟩ := hi
+  constructor
+  · intro c' e he
+    have := h1 c' e he
+    simp only [upd]
+    refine ⟨this.1, this.2.1, this.2.2.1, ?_, this.2.2.2.2⟩
+    split
+    · subst_vars; simp [this.2.2.2.1]
+    · exact this.2.2.2.1
+  all_goals assumption
+
+
+
+theorem heldAt_false {s : State} {c : Cls} {k : Id} (hi : CInv s) (hg : heldAt s c k = false)
+    (v : Handle) (he : Ent s c (k, v)) : (s.obj v).held = false := by
+  simp only [heldAt, Bool.or_eq_false_iff] at hg
+  rcases he with he | he
+  · have := aget_eq_some_of_fun (hi.funS c) he
+    rw [this] at hg; exact hg.1
+  · have := aget_eq_some_of_fun (hi.funW c) he
+    rw [this] at hg; exact hg.2
+
+theorem step_spec (s : State) (op : Op) (hi : CInv s) (hg : guard s op = true) :
+    CInv (step s op).1 ∧ (∀ h ∈ (step s op).2.handles, ∃ c k, Good (step s op).1 c k h) ∧
+    (op.isAccess = true → Frame s (step s op).1) := by
+  cases op with
+  | create c idopt =>
+    simp only [step]
+    split
+    · exact ⟨hi, by simp [Out.handles], by simp [Op.isAccess]⟩
+    · rename_i hnk
+      have hnk' : idopt.getD (s.maxId c + 1) ∉ s.rows c := by simpa using hnk
+      have h1 := inv_rows_add s c (idopt.getD (s.maxId c + 1)) (upd s.maxId c (max (s.maxId c) (idopt.getD (s.maxId c + 1)))) hi
+      have := inv_register _ c (idopt.getD (s.maxId c + 1)) false h1 (by simp [upd])
+        (fun v hv => hnk' (hi.ent c _ (Or.inl hv)).2.2.2.1)
+        (fun v hv => absurd (hi.ent c _ (Or.inr hv)).2.2.2.1 hnk')
+      refine ⟨this.1, ?_, by simp [Op.isAccess]⟩
+      intro h hh
+      simp only [Out.handles, List.mem_singleton] at hh
+      subst hh
+      exact ⟨c, _, this.2⟩
+  | get c k =>
+    simp only [step]
+    obtain ⟨g1, g2, g3, g4, g5⟩ := getObj_spec s c k false hi
+    generalize getObj s c k false = r at g1 g2 g3 g4 g5
+    obtain ⟨s1, res⟩ := r
+    cases res with
+    | some h => exact ⟨g1, by intro h' hh; simp only [Out.handles, List.mem_singleton] at hh; subst hh; exact ⟨c, k, g4 _ rfl⟩, fun _ => g2⟩
+    | none => exact ⟨g1, by simp [Out.handles], fun _ => g2⟩
+  | select c ids =>
+    simp only [step]
+    obtain ⟨g1, g2, g3, g4⟩ := selectLoop_spec c ids s [] hi (by simp)
+    exact ⟨g1, fun h hh => by obtain ⟨k, gk⟩ := g4 h hh; exact ⟨c, k, gk⟩, fun _ => g2⟩
+  | look c k =>
+    simp only [step]
+    split
+    · obtain ⟨g1, g2, g3, g4, g5⟩ := getObj_spec s c k true hi
+      generalize getObj s c k true = r at g1 g2 g3 g4 g5
+      obtain ⟨s1, res⟩ := r
+      cases res with
+      | some h => exact ⟨g1, by intro h' hh; simp only [Out.handles, List.mem_singleton] at hh; subst hh; exact ⟨c, k, g4 _ rfl⟩, fun _ => g2⟩
+      | none => exact ⟨g1, by simp [Out.handles], fun _ => g2⟩
+    · exact ⟨hi, by simp [Out.handles], fun _ => Frame.refl s⟩
+  | fk h tc tid =>
+    simp only [step]
+    split
+    · split
+      · exact ⟨hi, by simp [Out.handles], fun _ => Frame.refl s⟩
+      · have h0 : CInv (setObj s h { s.obj h with expired := false }) :=
+          inv_setObj s h _ hi rfl rfl rfl rfl (fun x => Or.inl x)
+        have f0 : Frame s (setObj s h { s.obj h with expired := false }) := by
+          refine ⟨rfl, rfl, Nat.le_refl _, ?_⟩
+          intro h' _; simp only [setObj, upd]; split
+          · subst_vars; exact ⟨rfl, rfl, rfl, id⟩
+          · exact ⟨rfl, rfl, rfl, id⟩
+        cases tid with
+        | none => exact ⟨h0, by simp [Out.handles], fun _ => f0⟩
+        | some t =>
+          simp only
+          obtain ⟨g1, g2, g3, g4, g5⟩ := getObj_spec _ tc t false h0
+          generalize getObj (setObj s h { s.obj h with expired := false }) tc t false = r at g1 g2 g3 g4 g5
+          obtain ⟨s1, res⟩ := r
+          cases res with
+          | some h' => exact ⟨g1, by intro x hh; simp only [Out.handles, List.mem_singleton] at hh; subst hh; exact ⟨tc, t, g4 _ rfl⟩, fun _ => f0.trans g2⟩
+          | none => exact ⟨g1, by simp [Out.handles], fun _ => f0.trans g2⟩
+    · exact ⟨hi, by simp [Out.handles], fun _ => Frame.refl s⟩
+  | join h tc ids =>
+    simp only [step]
+    split
+    · obtain ⟨g1, g2, g3, g4⟩ := joinLoop_spec tc ids s [] hi (by simp)
+      generalize joinLoop tc ids s [] = r at g1 g2 g3 g4
+      obtain ⟨s1, res⟩ := r
+      cases res with
+      | some l => exact ⟨g1, fun x hx => by obtain ⟨k, gk⟩ := g4 l rfl x hx; exact ⟨tc, k, gk⟩, fun _ => g2⟩
+      | none => exact ⟨g1, by simp [Out.handles], fun _ => g2⟩
+    · exact ⟨hi, by simp [Out.handles], fun _ => Frame.refl s⟩
+  | drop h =>
+    simp only [step]
+    split
+    · exact ⟨inv_setObj s h _ hi rfl rfl rfl rfl (by simp), by simp [Out.handles], by simp [Op.isAccess]⟩
+    · exact ⟨hi, by simp [Out.handles], by simp [Op.isAccess]⟩
+  | gc hs => exact ⟨inv_gc s hs hi, by simp [step, Out.handles], by simp [Op.isAccess]⟩
+  | expire h =>
+    simp only [step]
+    split
+    · refine ⟨?_, by simp [Out.handles], by simp [Op.isAccess]⟩
+      unfold expireOne
+      have a : CInv (setObj s h { s.obj h with expired := true }) :=
+        inv_setObj s h _ hi rfl rfl rfl rfl (fun x => Or.inl x)
+      apply inv_purge _ _ _ a
+      intro h' hn hh ho hck
+      simp only [guard, Bool.not_eq_true'] at hg
+      have hh' : (s.obj h').held = true := by
+        simp only [setObj, upd] at hh; split at hh <;> simp_all
+      have ho' : (s.obj h').obsolete = false := by
+        simp only [setObj, upd] at ho; split at ho <;> simp_all
+      have hc' : (s.obj h').cls = (s.obj h).cls ∧ (s.obj h').id = (s.obj h).id := by
+        simp only [setObj, upd] at hck; split at hck <;> simp_all
+      have e := hi.hcached h' hn (by simp) hh' ho'
+      rw [hc'.1, hc'.2] at e
+      have := heldAt_false hi hg h' e
+      rw [hh'] at this; cases this
+    · exact ⟨hi, by simp [Out.handles], by simp [Op.isAccess]⟩
+  | expireAll =>
+    simp only [step]
+    refine ⟨?_, by simp [Out.handles], by simp [Op.isAccess]⟩
+    apply inv_expireFold _ _ (inv_weakrefAll s hi)
+    simp only [guard, List.all_eq_true, List.mem_range, Bool.or_eq_true, Bool.not_eq_true'] at hg
+    have hn : (weakrefAll s).n = s.n := by unfold weakrefAll; split <;> rfl
+    have ho : (weakrefAll s).obj = s.obj := by unfold weakrefAll; split <;> rfl
+    intro h' hlt hh
+    rw [hn] at hlt; rw [ho] at hh ⊢
+    rcases hg h' hlt with x | x
+    · rw [hh] at x; cases x
+    · exact x
+  | destroy h =>
+    simp only [step]
+    split
+    · rename_i hu
+      simp only [usable, Bool.and_eq_true, decide_eq_true_eq] at hu
+      simp only [guard, Bool.not_eq_true'] at hg
+      refine ⟨?_, by simp [Out.handles], by simp [Op.isAccess]⟩
+      have hent := hi.hcached h hu.1 (by simp) hu.2 hg
+      -- rows shrink, the object becomes obsolete, its entry goes
+      have key : ∀ c e, Ent s c e → ¬ (c = (s.obj h).cls ∧ e.1 = (s.obj h).id) → e.2 ≠ h := by
+        intro c e he hne hx
+        obtain ⟨_, b2, b3, _⟩ := hi.ent c e he
+        rw [hx] at b2 b3
+        exact hne ⟨b2.symm, b3.symm⟩
+      rw [purge_eq]
+      obtain ⟨h1, h2, h3, h4, h5, h6, h7, h8⟩ := hi
+      constructor
+      · intro c e he
+        simp only [Ent, setFac, setObj, upd] at he ⊢
+        split at he
+        · rename_i hc; subst hc
+          simp only [mem_aerase] at he
+          have he' : Ent s (s.obj h).cls e := by rcases he with x | x; exact Or.inl x.1; exact Or.inr x.1
+          have hk : e.1 ≠ (s.obj h).id := by rcases he with x | x; exact x.2; exact x.2
+          have := h1 _ e he'
+          have hne := key _ e he' (fun x => hk x.2)
+          simp only [hne, if_false, if_true]
+          refine ⟨this.1, this.2.1, this.2.2.1, ?_, this.2.2.2.2⟩
+          simp only [List.mem_filter, decide_eq_true_eq]; exact ⟨this.2.2.2.1, hk⟩
+        · rename_i hc
+          have := h1 c e he
+          have hne := key c e he (fun x => hc x.1)
+          simp only [hne, if_false, hc]
+          exact this
+      · intro c; have := h2 c; simp only [setFac, setObj, upd]; split
+        · subst_vars; exact fun_filter this
+        · exact this
+      · intro c; have := h3 c; simp only [setFac, setObj, upd]; split
+        · subst_vars; exact fun_filter this
+        · exact this
+      · intro c k v1 v2; have := h4 c k v1 v2; simp only [setFac, setObj, upd]; split <;> simp_all [mem_aerase]
+      · intro c e he
+        have he0 : e ∈ (s.fac c).strong := by
+          simp only [setFac, setObj, upd] at he; split at he
+          · subst_vars; simp only [mem_aerase] at he; exact he.1
+          · exact he
+        have := h5 c e he0
+        simp only [setFac, setObj, upd]; split <;> simp_all
+      · intro hd c; have := h6 hd c; simp only [setFac, setObj, upd]; split <;> simp_all [aerase]
+      · intro h' hn _ hh ho
+        simp only [setFac, setObj, upd] at hn hh ho ⊢
+        by_cases hx : h' = h
+        · subst hx; simp at ho
+        · simp only [hx, if_false] at hh ho ⊢
+          have a := h7 h' hn (by simp) hh ho
+          simp only [Ent] at a ⊢
+          by_cases hc : (s.obj h').cls = (s.obj h).cls
+          · simp only [upd, hc, if_true, mem_aerase]
+            rw [hc] at a
+            have hk : (s.obj h').id ≠ (s.obj h).id := by
+              intro hk
+              rw [hk] at a
+              rcases a with a | a <;> rcases hent with b | b
+              · exact hx (h2 _ _ _ _ a b)
+              · exact h4 _ _ _ _ a b
+              · exact h4 _ _ _ _ b a
+              · exact hx (h3 _ _ _ _ a b)
+            rcases a with a | a
+            · exact Or.inl ⟨a, hk⟩
+            · exact Or.inr ⟨a, hk⟩
+          · simp only [upd, hc, if_false]; exact a
+      · intro h' hn hh
+        simp only [setFac, setObj, upd] at hn hh ⊢
+        split
+        · subst_vars; simp only [if_true] at hh; exact h8 _ hn hh
+        · rename_i hx; simp only [hx, if_false] at hh; exact h8 _ hn hh
+    · exact ⟨hi, by simp [Out.handles], by simp [Op.isAccess]⟩
+  | pickle h =>
+    simp only [step]
+    split
+    · exact ⟨inv_congr hi rfl rfl rfl rfl rfl, by simp [Out.handles], by simp [Op.isAccess]⟩
+    · exact ⟨hi, by simp [Out.handles], by simp [Op.isAccess]⟩
+  | unpickle p =>
+    simp only [step]
+    cases hp : s.pickles[p]? with
+    | none => exact ⟨hi, by simp [Out.handles], by simp [Op.isAccess]⟩
+    | some x =>
+      obtain ⟨c, k, ex⟩ := x
+      simp only
+      simp only [guard, hp, Bool.and_eq_true, Bool.or_eq_true, Bool.not_eq_true'] at hg
+      obtain ⟨hrow, hweak⟩ := hg
+      have hrow' : k ∈ s.rows c := by simpa using hrow
+      cases ht : tryGet s c k with
+      | some _ => exact ⟨hi, by simp [Out.handles], by simp [Op.isAccess]⟩
+      | none =>
+        simp only
+        have hs : ∀ v, (k, v) ∉ (s.fac c).strong := by
+          intro v hv
+          have hdc : s.cfg.doCache = true := by
+            cases h' : s.cfg.doCache with
+            | true => rfl
+            | false => rw [hi.nocache h' c] at hv; cases hv
+          have hnw : aget k (s.fac c).weak = none := aget_none_iff.2 (fun w hw => hi.disj c k v w hv hw)
+          simp only [tryGet, hnw, hdc, if_true] at ht
+          exact aget_none_iff.1 ht v hv
+        have hw : ∀ v, (k, v) ∈ (s.fac c).weak → s.cfg.doCache = false ∧ (s.obj v).dead = true := by
+          intro v hv
+          have hg' := aget_eq_some_of_fun (hi.funW c) hv
+          simp only [tryGet, hg'] at ht
+          have hd : (s.obj v).dead = true := by
+            cases h' : (s.obj v).dead with
+            | true => rfl
+            | false => simp [h'] at ht
+          refine ⟨?_, hd⟩
+          rcases hweak with x | x
+          · exact x
+          · simp only [hg', hd] at x; cases x
+        have := inv_register s c k ex hi hrow' hs hw
+        refine ⟨this.1, ?_, by simp [Op.isAccess]⟩
+        intro h hh
+        simp only [Out.handles, List.mem_singleton] at hh
+        subst hh
+        exact ⟨c, k, this.2⟩
+
+
 end SqlObjVerif.Cache
